@@ -134,6 +134,16 @@ theorem clone_loop_runs_the_source (env : Env) (N : Nat) (grow : Bool) (src : Li
     interpCloneInto env N grow Extracted.cloneCopyEffects src idx t ss a = Rodeo.cloneInto env N grow src idx t ss a :=
   interp_clone_is_model env N grow src idx t ss a
 
+/-- ... and so are `try_clone` and `try_clone_from` as wholes: the total length (the default capacity when it is
+0), the arena sized to it under `max(source limit, total)`, resp. the cleared target; then the copy loop; a failure
+of the loop is propagated.  Running the regenerated sequences equals `Rodeo.tryClone` / `Rodeo.tryCloneFrom` for
+every source, target and growth oracle. -/
+theorem clone_runs_the_source (env : Env) (grow : Bool) :
+    (∀ r : Rodeo, interpTryClone env Extracted.tryCloneEffects Extracted.cloneCopyEffects r grow = r.tryClone env grow) ∧
+    (∀ target source : Rodeo, interpTryCloneFrom env Extracted.tryCloneFromEffects Extracted.cloneCopyEffects target source grow =
+      Rodeo.tryCloneFrom env target source grow) :=
+  ⟨fun r => interp_tryClone_is_model env r grow, fun t s => interp_tryCloneFrom_is_model env t s grow⟩
+
 /-- The code this file's theorems are about is the same under every feature configuration: the regenerated
 census of conditional compilation contains import blocks, whole serde impls, optional-dependency impls and
 module declarations only, and no gate inside any function body (`Lemmas/Config.lean`). -/
